@@ -6,12 +6,22 @@ All statements are for every geometry (any number of segments with any, unequal,
 tangential / TOF ranges), both storage orders, every permutation of the segment sequence, every element size
 and stream offset, and every history of writes — no bounds.
 
+Extension (scale factor, bulk arithmetic, copies): `Op` now also has the constructors `bulk` (one pass of
+`ProjData::xapyb`/`sapyb`/`axpby`/`operator+=,-=,*=,/=`: TOF, segments increasing, `SegmentBySinogram`) and `fillPd`
+(`ProjData::fill(const ProjData&)`: segments increasing, TOF, `SegmentByView`), so `C02_path_addresses`,
+`C02_history_refines` and `C02_read_any_path` below cover histories that contain those operations as well; the values a
+bulk operation writes are arbitrary here (they are what the element-wise arithmetic produced).  New sections at the end:
+the scale factor of the stream, copies into a fresh `ProjDataInMemory`, segment containers of the wrong size.
+
 Hypotheses: `Layout.WF` (segment sequence = a permutation of the segment range, TOF sequence of the TOF range,
 non-negative sizes, `offset_3d_data` = one complete data set — which `C02_offset3d_is_one_data_set` shows is what
 `activate_TOF` computes) and `Layout.Pos` (no empty dimension); both hold of every layout STIR constructs
 (`example`s below).
 -/
 import StirVerif.C02.ProofsRefine
+import StirVerif.C02.ProofsScale
+import StirVerif.C02.ProofsCopy
+import StirVerif.C02.ProofsSubset
 
 namespace StirVerif.C02
 
@@ -47,8 +57,10 @@ theorem C02_offset3d_is_one_data_set (l : Layout) (hn : l.segSeq.Nodup)
 
 /-- "a value written through any access path …": for an in-range request through any path (single bin, viewgram,
     sinogram, segment by sinogram / by view — including the conversion when the storage order does not match —,
-    related viewgrams, `fill`, `fill_from`), the addresses the code seeks to and runs over are exactly the offsets of
-    the bins of that path, each once, in container element order. -/
+    related viewgrams, `fill`, `fill_from`, and — since the extension of the model — the bulk arithmetic
+    `sapyb`/`xapyb`/`axpby`/`operator+=,-=,*=,/=` (`Op.bulk`) and `fill(const ProjData&)` (`Op.fillPd`)), the addresses
+    the code seeks to and runs over are exactly the offsets of the bins of that path, each once, in container element
+    order. -/
 theorem C02_path_addresses {α : Type} (l : Layout) (p : l.Pos) (op : Op α) (hv : op.Valid l) :
     op.addrs l = .ok ((op.bins l).map (rawOffset l)) ∧ ∀ b ∈ op.bins l, InRange l b :=
   ⟨Op.addrs_eq p op hv, Op.bins_inRange p op hv⟩
@@ -124,7 +136,8 @@ theorem C02_untouched_bins_keep_value {α : Type} (l : Layout) (h : l.WF) (σ : 
 
 /-- "arbitrary interleavings of write operations through different access paths": after any history of in-range
     requests through all paths (executed on the store exactly as the code addresses it), the store still holds,
-    at the offset of every in-range bin, what the abstract array (reference map) holds … -/
+    at the offset of every in-range bin, what the abstract array (reference map) holds …
+    (histories may now contain `Op.bulk` and `Op.fillPd` steps: bulk arithmetic and `fill(const ProjData&)`) -/
 theorem C02_history_refines {α : Type} (l : Layout) (h : l.WF) (p : l.Pos) (ops : List (Op α))
     (σ : Store α) (m : Spec α) (r : Refines l σ m) (hv : ∀ op ∈ ops, op.Valid l) :
     Refines l (ops.foldl (stepStore l) σ) (ops.foldl (stepSpec l) m) :=
@@ -169,7 +182,7 @@ theorem C02_range_errors_checked (l : Layout) (hv : l.checkView = true) (ht : l.
     · exact C02_range_errors_partial l b (Or.inr (Or.inl h2))
   · exact C02_range_errors_partial l b (Or.inl h1)
 
-/-- a small concrete layout: segments -1..1 stored in the order 1, -1, 0 with 2, 2, 3 axial positions,
+/-- (used by the negative witnesses) a small concrete layout: segments -1..1 stored in the order 1, -1, 0 with 2, 2, 3 axial positions,
     2 views, 3 tangential positions -1..1, 3 TOF bins, 4-byte elements at stream offset 12 -/
 def exLayout (o : Order) (cv ct : Bool) : Layout :=
   { segSeq := [1, -1, 0], tofSeq := [-1, 0, 1], minSeg := -1, maxSeg := 1,
@@ -212,6 +225,114 @@ theorem C02_flush_after_every_write_partial (k : WriteKind) (hk : k ≠ .bin) : 
 /-- `set_bin_value` has no `flush()` in the pinned source -/
 theorem C02_flush_set_bin_value_fails : flushes .bin = false := rfl
 
+/-! ## the scale factor of the stream -/
+
+/-- "a value written through any access path … is read back unchanged through every other path … whatever the …
+    on-disk number type": on a stream with an integer on-disk type and scale factor `scale ≠ 0`, every value that is a
+    multiple `n · scale` of the scale factor (non-negative for unsigned short), written through any path that hands the
+    stream's scale factor to `write_data` (`round(value / scale)` on disk), is returned unchanged by every `get_*`
+    (`number · scale`) — every `set_*` but the pinned `set_bin_value`. -/
+theorem C02_scaled_value_roundtrip (ty : NumType) (hty : ty ≠ .float) (binScaled : Bool) (k : WriteKind)
+    (hk : k ≠ .bin ∨ binScaled = true) (scale : Rat) (hs : scale ≠ 0) (n : Int)
+    (hn : ty = .ushort → 0 ≤ (n : Rat) * scale) :
+    writeThenRead ty binScaled k scale ((n : Rat) * scale) = (n : Rat) * scale :=
+  writeThenRead_multiple ty hty binScaled k hk scale hs n hn
+
+/-- float on disk (and `ProjDataInMemory`): every value is kept as it is; with scale factor 1 it is read back unchanged -/
+theorem C02_float_value_roundtrip (binScaled : Bool) (k : WriteKind) (v : Rat) :
+    writeThenRead .float binScaled k 1 v = v := by
+  rw [writeThenRead_float, mul_one]
+
+/-- the clause FAILS for the single-bin path of the pinned source: `set_bin_value` passes scale 1 to `write_data`
+    while `get_bin_value` multiplies by `scale_factor`, so an integer value `m` comes back as `m · scale`
+    (short data, scale factor 3: 6 is read back as 18, although the same value written through `set_viewgram` comes back as 6). -/
+theorem C02_set_bin_value_ignores_scale_fails :
+    (∀ (scale : Rat) (m : Int), writeThenRead .short false .bin scale (m : Rat) = (m : Rat) * scale) ∧
+    writeThenRead .short false .bin 3 6 = 18 ∧ writeThenRead .short false .viewgram 3 6 = 6 := by
+  refine ⟨fun scale m => writeThenRead_bin_unscaled .short (by decide) scale m (by intro h; cases h), ?_, ?_⟩
+  · have := writeThenRead_bin_unscaled .short (by decide) 3 6 (by intro h; cases h)
+    norm_num at this ⊢
+    exact this
+  · have := writeThenRead_multiple .short (by decide) false .viewgram (Or.inl (by decide)) 3 (by norm_num) 2 (by intro h; cases h)
+    norm_num at this ⊢
+    exact this
+
+/-- non-vacuity: the hypotheses of `C02_scaled_value_roundtrip` hold for unsigned short data with scale factor 1/2 -/
+example : writeThenRead .ushort false .sinogram (1/2) ((7 : Int) * (1/2)) = (7 : Int) * (1/2) :=
+  C02_scaled_value_roundtrip .ushort (by decide) false .sinogram (Or.inl (by decide)) (1/2) (by norm_num) 7 (by intro _; norm_num)
+
+/-! ## copies into a fresh `ProjDataInMemory` -/
+
+/-- "… is read back unchanged through every other path … whatever the … backing store": `ProjDataInMemory(const ProjData&)`
+    (= `ProjData::fill(const ProjData&)` on the new object, also used by `ProjDataInMemory::read_from_file`) reads, for
+    every segment and TOF bin, exactly the addresses of the source's bins and writes them at the buffer index of the SAME
+    bin in the new object's own layout (standard segment sequence, natural TOF order) … -/
+theorem C02_copy_into_memory_addresses (l : Layout) (p : l.Pos) :
+    copyIntoMemory l = .ok ((binsFillPd l).map fun b => (rawOffset l b, rawOffset (memLayout l) b)) :=
+  copyIntoMemory_eq p
+
+/-- … every in-range bin is copied … -/
+theorem C02_copy_into_memory_complete (l : Layout) (p : l.Pos) (b : Bin) (r : InRange l b) : b ∈ binsFillPd l :=
+  mem_binsFillPd p r
+
+/-- … and therefore the new object holds the same abstract array as the source, whatever it held before and whatever the
+    source's storage order, segment sequence, element size and offset. -/
+theorem C02_copy_into_memory_refines {α : Type} (l : Layout) (p : l.Pos) (h0 : l.minSeg ≤ 0) (h1 : 0 ≤ l.maxSeg)
+    (hax : ∀ s, l.minSeg ≤ s ∧ s ≤ l.maxSeg → 0 ≤ l.numAx s) (htof : ¬ l.numTof > 1 → l.minTof = l.maxTof)
+    (σ τ : Store α) (m : Spec α) (r : Refines l σ m) :
+    Refines (memLayout l) (copyStore σ τ ((binsFillPd l).map fun b => (rawOffset l b, rawOffset (memLayout l) b))) m :=
+  copy_refines p (memLayout_WF h0 h1 hax (le_of_lt p.views) (le_of_lt p.tang) htof) r
+
+/-- `ProjData::standard_segment_sequence` never repeats a segment: the layout of every `ProjDataInMemory` is a
+    permutation of its segment range (hypothesis `segNodup` of `Layout.WF`). -/
+theorem C02_standard_segment_sequence_nodup (minSeg maxSeg : Int) : (standardSegmentSequence minSeg maxSeg).Nodup :=
+  standardSegmentSequence_nodup minSeg maxSeg
+
+/-! ## `get_subset` -/
+
+/-- `ProjData::get_subset(views)` (for TOF bin, segment, subset view `j`: `get_viewgram(views[j])` → `set_viewgram` of view
+    `j` of a fresh `ProjDataInMemory` whose geometry has `views.size()` views): for a non-empty list of in-range views the
+    code reads, for every bin `c` of the subset object, exactly the source address of the bin `c` with view number
+    `views[c.view]`, and writes it at `c`'s own buffer index … -/
+theorem C02_get_subset_addresses (l : Layout) (p : l.Pos) (views : List Int) (hne : views ≠ [])
+    (hv : ∀ v ∈ views, ViewOK l v) :
+    subsetCopy l views = .ok ((subsetDst l views).map fun c =>
+      (rawOffset l (subsetSrc views c), rawOffset (subsetLayout l views.length) c)) :=
+  subsetCopy_eq p hne hv
+
+/-- … so that the returned object holds the source's abstract array re-indexed by `views` (every in-range bin of the
+    subset is written, `subsetDst_cover`; views may repeat or come in any order), whatever the source's layout. -/
+theorem C02_get_subset_refines {α : Type} (l : Layout) (p : l.Pos) (h0 : l.minSeg ≤ 0) (h1 : 0 ≤ l.maxSeg)
+    (hax : ∀ s, l.minSeg ≤ s ∧ s ≤ l.maxSeg → 0 ≤ l.numAx s) (htof : ¬ l.numTof > 1 → l.minTof = l.maxTof)
+    (views : List Int) (hne : views ≠ []) (hv : ∀ v ∈ views, ViewOK l v)
+    (σ τ : Store α) (m : Spec α) (r : Refines l σ m) :
+    Refines (subsetLayout l views.length)
+      (copyStore σ τ ((subsetDst l views).map fun c =>
+        (rawOffset l (subsetSrc views c), rawOffset (subsetLayout l views.length) c)))
+      (fun c => m (subsetSrc views c)) :=
+  subset_refines p hne hv (subsetLayout_WF views.length h0 h1 hax (le_of_lt p.tang) htof) r
+
+/-! ## segment containers of the wrong size -/
+
+/-- "Requests outside the index ranges are reported as errors instead of touching other data": once `set_segment`
+    compares the axial range of the container with its own (`checked`, the flag the harness reads off the
+    implementation), a container with an axial position too many is rejected … -/
+theorem C02_oversized_segment_checked (l : Layout) (seg tof : Int) (extra : Nat) :
+    ∃ e, addrsSegOversized l true seg tof extra = .error e := by
+  unfold addrsSegOversized
+  cases h : offsetOf l ⟨seg, l.minView, l.minAx seg, l.minTang, tof⟩ with
+  | error e => exact ⟨e, rfl⟩
+  | ok o => exact ⟨.axRange, rfl⟩
+
+/-- … and it FAILS for the pinned source (views and tangential positions are compared, axial positions are not): on the
+    example layout below, `set_segment` of segment 1 (first in the stream, 2 axial positions) with a container that has 3
+    axial positions is accepted and its run of addresses contains the offset of the in-range bin
+    (segment -1, view 0, axial 0, tang -1) of the NEXT segment in the stream. -/
+theorem C02_oversized_segment_aliases_fails :
+    ∃ as, addrsSegOversized (exLayout .savt false false) false 1 (-1) 1 = .ok as ∧
+      offsetOf (exLayout .savt false false) ⟨-1, 0, 0, -1, -1⟩ = .ok 60 ∧ (60 : Int) ∈ as := by
+  refine ⟨_, rfl, by decide, by decide⟩
+
 /-! ## non-vacuity -/
 
 theorem C02_example_layout_WF (o : Order) (cv ct : Bool) : (exLayout o cv ct).WF where
@@ -253,5 +374,39 @@ example : ∀ op ∈ ([.setViewgram 0 1 (-1) [1, 2, 3, 4, 5, 6, 7, 8, 9], .setBi
 /-- the model computes: viewgram (segment 0, view 1, TOF -1) of the example layout in the
     Segment_View_AxialPos_TangPos order is the contiguous run of 9 elements starting at byte 12 + 4·(4·6 + 9) -/
 example : addrsViewgram (exLayout .svat false false) 0 1 (-1) = .ok (block 144 4 9) := by decide
+
+/-- the hypotheses of `C02_copy_into_memory_refines` hold for the example layout (any store content) -/
+example (o : Order) (σ τ : Store Nat) (m : Spec Nat) (r : Refines (exLayout o false false) σ m) :
+    Refines (memLayout (exLayout o false false))
+      (copyStore σ τ ((binsFillPd (exLayout o false false)).map fun b =>
+        (rawOffset (exLayout o false false) b, rawOffset (memLayout (exLayout o false false)) b))) m :=
+  C02_copy_into_memory_refines _ (C02_example_layout_Pos o false false) (by simp [exLayout]) (by simp [exLayout])
+    (by intro s _; simp only [exLayout]; split <;> omega) (by intro h; exact absurd (by simp [exLayout]) h) σ τ m r
+
+/-- the hypotheses of `C02_get_subset_refines` hold for the example layout and the views [1, 0] -/
+example (o : Order) (σ τ : Store Nat) (m : Spec Nat) (r : Refines (exLayout o false false) σ m) :
+    Refines (subsetLayout (exLayout o false false) 2)
+      (copyStore σ τ ((subsetDst (exLayout o false false) [1, 0]).map fun c =>
+        (rawOffset (exLayout o false false) (subsetSrc [1, 0] c), rawOffset (subsetLayout (exLayout o false false) 2) c)))
+      (fun c => m (subsetSrc [1, 0] c)) :=
+  C02_get_subset_refines _ (C02_example_layout_Pos o false false) (by simp [exLayout]) (by simp [exLayout])
+    (by intro s _; simp only [exLayout]; split <;> omega) (by intro h; exact absurd (by simp [exLayout]) h)
+    [1, 0] (by simp) (by intro v hv; simp at hv; rcases hv with rfl | rfl <;> simp [ViewOK, Layout.maxView, exLayout]) σ τ m r
+
+/-- the model computes: subset view 0 of `get_subset([1, 0])` comes from view 1 -/
+example : subsetSrc [1, 0] ⟨0, 0, 2, 1, 0⟩ = ⟨0, 1, 2, 1, 0⟩ := by decide
+
+/-- a history containing the bulk paths is valid on the example layout -/
+example : ∀ op ∈ ([.bulk (List.replicate 126 2), .fillPd (List.replicate 126 3), .setBin ⟨0, 1, 2, 1, 0⟩ 9] : List (Op Nat)),
+    op.Valid (exLayout .savt false false) := by
+  intro op hop
+  simp only [List.mem_cons, List.not_mem_nil, or_false] at hop
+  rcases hop with rfl | rfl | rfl
+  · trivial
+  · trivial
+  · exact ⟨by decide, by decide, by decide, by decide, by decide⟩
+
+/-- the model computes: the in-memory copy of the example layout stores segment 0 first (standard sequence 0, 1, -1) -/
+example : (memLayout (exLayout .svat false false)).segSeq = [0, 1, -1] := by decide
 
 end StirVerif.C02
